@@ -84,6 +84,10 @@ def rule_a(ck, R):
             elif False in hdbit:
                 if crc:
                     bad = 'checksum computed although not declared'
+                dep = [c for c in p.cond_terms() if 'hdcrc' in fmt(c)]
+                if dep:
+                    bad = ('without a declared header checksum acceptance still depends on {%s}: the hdcrc field holds whatever the frame memory '
+                           'held before (it is not cleared on this path), so valid frames are rejected at random' % fmt(dep[0]))
             else:
                 bad = 'acceptance does not depend on the WITH-HEADER-CRC bit'
         ck.verdict(bad is None and nok >= 3, 'C07.a', 'parse_header:gating', where,
@@ -264,6 +268,13 @@ def rule_c(ck, R):
                 bad = 'checks run in order %s' % names
             if p.ret == C(0) and names != ['parse_header', 'payload_plausible', 'check_payload']:
                 bad = 'accepts after only %s' % names
+            if p.end == 'return' and p.ret is not None and not (p.ret[0] == 'c' and p.ret[1] < 0) and not any(
+                    strip_cast(p.ret) == e.result for e in p.calls() if e.name in origins):
+                for nme in names:
+                    e = p.calls(nme)[0]
+                    if eng.feasible(p.cond_terms() + [('cmp', '<', e.result, C(0))]):
+                        bad = ('the frame is accepted (returns %s) on a path where %s may have reported a failure: its result is not known to be >= 0 '
+                               '(the test of the result has the wrong sign or is missing)' % (fmt(p.ret), nme))
         ck.verdict(bad is None, 'C07.c', 'parse_frame:order', R.where('parse_frame'),
                    'header -> plausibility -> payload checksum; the first failure is returned, success needs all three' if bad is None else bad)
     # regp_recv mapping
@@ -335,6 +346,7 @@ def rule_d(ck, R):
     maxresp = max(v for n, v in R.u.enum_decls.get('RPResponse', []))
     bad = []
     seen_types = set()
+    admitted, wanted = {}, {}
     n_ = ('v', 'n')
     for p in acc:
         conds = p.cond_terms()
@@ -372,10 +384,22 @@ def rule_d(ck, R):
         elif tv == types['RP_FRAME_META']:
             if eng.feasible(conds, [M]) or eng.feasible(conds, [Lin.const(3) - M]):
                 bad.append('META code outside {1, 2} accepted')
+        # completeness half: which defined codes does this accepting path admit?
+        rng = (range(0, 1) if tv in (types['RP_FRAME_READ_REQUEST'], types['RP_FRAME_WRITE_REQUEST']) else
+               range(0, maxresp + 1) if tv in (types['RP_FRAME_READ_RESPONSE'], types['RP_FRAME_WRITE_RESPONSE']) else range(1, 3))
+        for v in rng:
+            if eng.feasible(conds, [M - v, Lin.const(v) - M]):
+                admitted.setdefault(tv, set()).add(v)
+            wanted.setdefault(tv, set()).add(v)
+    for tv in sorted(wanted):
+        missing = sorted(wanted[tv] - admitted.get(tv, set()))
+        if missing:
+            nm = [n for n, v in types.items() if v == tv][0]
+            bad.append('%s frames with the defined meta/response code(s) %s are rejected as badly encoded' % (nm, missing))
     if seen_types != set(types.values()):
         bad.append('accepted frame types %s, defined %s' % (sorted(seen_types), sorted(types.values())))
     ck.verdict(not bad, 'C07.d', 'parse_header:validation', where,
-               'accepts only version 0, reserved option bit clear, the 5 defined types, request meta 0, response code <= %d, META code in {1,2}, at least 12 octets' % maxresp
+               'accepts exactly: version 0, reserved option bit clear, the 5 defined types, request meta 0, every response code 0..%d, META codes 1 and 2; at least 12 octets' % maxresp
                if not bad else '; '.join(sorted(set(bad))))
     ck.floor('C07.d', 'accepting paths of parse_header', len(acc), 5)
 
